@@ -223,7 +223,7 @@ impl OutputFormatter {
                     }
                     let col = batch.column(col_idx);
                     let value = self.format_json_value(col, row_idx);
-                    write!(writer, "\"{}\": {}", field_name, value)?;
+                    write!(writer, "\"{}\": {}", json_escape(field_name), value)?;
                 }
                 write!(writer, "}}")?;
                 row_count += 1;
@@ -307,13 +307,11 @@ impl OutputFormatter {
         match array.data_type() {
             DataType::Utf8 => {
                 let arr = array.as_any().downcast_ref::<StringArray>().unwrap();
-                let val = arr.value(row);
-                format!("\"{}\"", val.replace('\\', "\\\\").replace('"', "\\\""))
+                format!("\"{}\"", json_escape(arr.value(row)))
             }
             DataType::LargeUtf8 => {
                 let arr = array.as_any().downcast_ref::<LargeStringArray>().unwrap();
-                let val = arr.value(row);
-                format!("\"{}\"", val.replace('\\', "\\\\").replace('"', "\\\""))
+                format!("\"{}\"", json_escape(arr.value(row)))
             }
             DataType::Boolean => {
                 let arr = array.as_any().downcast_ref::<BooleanArray>().unwrap();
@@ -353,15 +351,29 @@ impl OutputFormatter {
             }
             DataType::Float32 => {
                 let arr = array.as_any().downcast_ref::<Float32Array>().unwrap();
-                arr.value(row).to_string()
+                let v = arr.value(row);
+                // JSON has no NaN / Infinity literals
+                if v.is_finite() {
+                    v.to_string()
+                } else {
+                    "null".to_string()
+                }
             }
             DataType::Float64 => {
                 let arr = array.as_any().downcast_ref::<Float64Array>().unwrap();
-                arr.value(row).to_string()
+                let v = arr.value(row);
+                if v.is_finite() {
+                    v.to_string()
+                } else {
+                    "null".to_string()
+                }
             }
             _ => {
                 // For other types, use display format with quotes
-                format!("\"{}\"", self.format_display_value(array, row))
+                format!(
+                    "\"{}\"",
+                    json_escape(&self.format_display_value(array, row))
+                )
             }
         }
     }
@@ -477,6 +489,26 @@ impl OutputFormatter {
             }
         }
     }
+}
+
+/// Escape a string for use inside a JSON string literal (RFC 8259 section 7): the quotation
+/// mark, the backslash and every control character below U+0020 must be escaped.
+fn json_escape(s: &str) -> String {
+    let mut out = String::with_capacity(s.len() + 2);
+    for c in s.chars() {
+        match c {
+            '"' => out.push_str("\\\""),
+            '\\' => out.push_str("\\\\"),
+            '\n' => out.push_str("\\n"),
+            '\r' => out.push_str("\\r"),
+            '\t' => out.push_str("\\t"),
+            '\u{08}' => out.push_str("\\b"),
+            '\u{0C}' => out.push_str("\\f"),
+            c if (c as u32) < 0x20 => out.push_str(&format!("\\u{:04x}", c as u32)),
+            c => out.push(c),
+        }
+    }
+    out
 }
 
 /// Render one row of a nested (list / vector / struct / map) column compactly.
